@@ -280,6 +280,9 @@ func genEdit(c *simrt.Choices, u *Universe, g genCfg, snapshots []*Universe) (*U
 	if g.Features["fail"] {
 		kinds = append(kinds, "toggle-fail")
 	}
+	if g.Features["checks"] {
+		kinds = append(kinds, "destroy-condition", "destroy-condition")
+	}
 	k := kinds[c.Choose(len(kinds), "edit-kind")]
 	n := u.Clone()
 	ed := Edit{Op: k}
@@ -479,6 +482,19 @@ func genEdit(c *simrt.Choices, u *Universe, g genCfg, snapshots []*Universe) (*U
 			if strings.HasPrefix(k2, "cond_") {
 				n.Ext[k2] = v
 			}
+		}
+	case "destroy-condition":
+		// the external condition an output check tests is destroyed behind grog's back
+		var keys []string
+		for _, l := range labels {
+			for _, ck := range n.Specs[l].Checks {
+				keys = append(keys, ck.Key)
+			}
+		}
+		if len(keys) > 0 {
+			k := keys[c.Choose(len(keys), "cond-key")]
+			n.Ext[k] = ""
+			ed.Detail = k
 		}
 	case "toggle-fail":
 		s := lab()
